@@ -3120,6 +3120,11 @@ int replace_interactive (object_t * ob, object_t * obfrom) {
     {
       error ("Bad argument 2 to exec()\n");
     }
+  /* remove_interactive() is closing this connection and has called net_dead() (or the
+   * ed exit function) in obfrom: it frees the connection record and drops obfrom's
+   * reference when that returns. There is nothing left to hand over. */
+  if (obfrom->interactive->iflags & CLOSING)
+    return 0;
   if ((ob->flags & O_HIDDEN) != (obfrom->flags & O_HIDDEN))
     {
       if (ob->flags & O_HIDDEN)
